@@ -242,7 +242,7 @@ def compare_presence(ref_snaps, isd_regions, res, default_region):
     if [i for i in g.order if i in sn.elements] != ro:
       res.fail("presence:order:container", "region %s" % sn.id)
     for eid, e in g.elements.items():
-      if eid in sn.elements and kind_of(e) != sn.elements[eid][0]["kind"] and not (eid in rubies and kind_of(e) == "span"):
+      if eid in sn.elements and kind_of(e) != sn.elements[eid][0]["kind"] and not ((eid in rubies or eid in strip) and kind_of(e) == "span"):
         res.fail("presence:kind-changed", "%s is %s, source %s" % (eid, kind_of(e), sn.elements[eid][0]["kind"]))
   for rid, g in got.items():
     res.fail("presence:added:region", "region %s is not active/displayed in the reference (leaves %r)" % (rid, g.leaves[:3]))
